@@ -135,10 +135,10 @@ def check_point(ctx, kind, c, pdesc, durs):
         rep, f, h, m, s, qoff, qdn, qinst, problem = impl.alpha_fast(q, c)
         if problem is not None:
             ctx.violation("fields_valid", dict(sig, part="date" if "date" in problem else "time/zone"), case,
-                          "every field in its legal range", {"result": str(q), "why": problem})
+                          "every field in its legal range", {"result": impl.sstr(q), "why": problem})
             continue
         if h == 24 and not (du.zero and sig["h24"]):
-            ctx.violation("fields_valid", dict(sig, part="h24"), case, "0 <= h < 24", str(q))
+            ctx.violation("fields_valid", dict(sig, part="h24"), case, "0 <= h < 24", impl.sstr(q))
         if rep != pdesc["rep"]:
             ctx.violation("keeps_representation", sig, case, pdesc["rep"], rep)
         if qoff != off or [q._time_zone._hours, q._time_zone._minutes] != list(pdesc["tz"]):
@@ -152,22 +152,22 @@ def check_point(ctx, kind, c, pdesc, durs):
         if qinst != want and (exact or abs(qinst - want) > TOL):
             ctx.violation("instant", dict(sig, exact=exact), case,
                           {"instant": str(want), "as": _civil(kind, pdesc["rep"], want, off)},
-                          {"instant": str(qinst), "result": str(q), "error_s": float(qinst - want)})
+                          {"instant": str(qinst), "result": impl.sstr(q), "error_s": float(qinst - want)})
         key = impl.canon_point(q)
         if impl.canon_point(q2) != key:
-            ctx.violation("sub_is_add_neg", sig, case, str(q), str(q2))
+            ctx.violation("sub_is_add_neg", sig, case, impl.sstr(q), impl.sstr(q2))
         if impl.canon_point(q3) != key:
-            ctx.violation("radd", sig, case, str(q), str(q3))
+            ctx.violation("radd", sig, case, impl.sstr(q), impl.sstr(q3))
         r4 = impl.alpha_fast(q4, c)
         want4 = inst_p - du.len
         if r4[8] is not None or (r4[7] != want4 and (exact or abs(r4[7] - want4) > TOL)):
             ctx.violation("sub_instant", dict(sig, exact=exact), case, str(want4),
-                          {"instant": str(r4[7]), "result": str(q4), "why": r4[8]})
+                          {"instant": str(r4[7]), "result": impl.sstr(q4), "why": r4[8]})
         ctx.outcome("day_carry", qdn - dn)
         ctx.outcome("year_carry", f[0] - pdesc["f"][0])
     if impl.canon_point(p) != key_p:
         ctx.violation("operand_unchanged", sig, {"kind": "add", "mode": kind, "p": pdesc, "d": {}},
-                      "operand not modified by arithmetic", str(p))
+                      "operand not modified by arithmetic", impl.sstr(p))
 
 
 def check_add(ctx, kind, pdesc, ddesc):
